@@ -978,6 +978,24 @@ def leading_dimension_agreement(chk, cid, prog, fnames, cfgname, floor=4):
                                 m_, l_ = strip(args[mi]), strip(args[li])
                                 if l_.k == 'Unary' and l_.a['op'] == '&':
                                     note(root_ref(m_), l_.c[0], x)
+        # binding: X = S->nzval is a block of the dense matrix whose storage record is S; its leading dimension is S->lda
+        store_of, ld_store = {}, {}
+        for x in f.body.walk():
+            if x.k == 'Assign' and x.a['op'] == '=' and strip(x.c[0]).k == 'Ref':
+                r = unc(x.c[1])
+                if r.k == 'Member' and r.a.get('arrow') and strip(r.c[0]).k == 'Ref':
+                    if r.a.get('name') == 'nzval':
+                        store_of.setdefault(strip(x.c[0]).a.get('id'), set()).add(strip(r.c[0]).a.get('name'))
+                    elif r.a.get('name') == 'lda':
+                        ld_store.setdefault(strip(x.c[0]).a.get('name'), set()).add(strip(r.c[0]).a.get('name'))
+        for bid, lds in sorted(uses.items(), key=lambda kv: names[kv[0]]):
+            for ld, node in sorted(lds.items()):
+                if bid in store_of and ld in ld_store and len(store_of[bid]) == 1 and len(ld_store[ld]) == 1 and store_of[bid] != ld_store[ld]:
+                    n += 1
+                    chk.violate(cid, '%s:%s:leading-dimension-of-its-own-store' % (fname, names[bid]), loc(f, node), fname,
+                                '`%s` holds the values of %s but is addressed with %s, the leading dimension of %s (`%s`): right only while the two matrices '
+                                'happen to have the same leading dimension' % (names[bid], sorted(store_of[bid])[0], ld, sorted(ld_store[ld])[0], pretty(node)[:50]),
+                                cfgname=cfgname)
         for bid, lds in sorted(uses.items(), key=lambda kv: names[kv[0]]):
             if names[bid] in LUSUP_NAMES:
                 continue            # the supernode block: its stride discipline is the subject of lusup_stride_rule
